@@ -670,6 +670,9 @@ func decUtfCase(r *gen.Rand, e *emitter) {
 		b := genWTF8(r, e)
 		out := guard(func() string {
 			c, w := helpers.DecodeWTF8Rune(string(b))
+			if len(b) > 0 && len(b) < decSeqLen(b[0]) {
+				e.stat("wdec:input-ends-inside-announced-sequence")
+			}
 			switch {
 			case w == 0 && len(b) > 0:
 				e.stat("wdec:width0-nonempty")
@@ -683,6 +686,9 @@ func decUtfCase(r *gen.Rand, e *emitter) {
 		e.emit("decoders\twdec\t"+hexBytes(b), out)
 	case 1: // the consumer loop i += width (harness loop around the real decoder, with a round limit)
 		b := genWTF8(r, e)
+		if decEndsTruncated(b) {
+			e.stat("wall:input-ends-with-truncated-sequence")
+		}
 		out := guard(func() string {
 			s := string(b)
 			var cps []string
@@ -771,6 +777,31 @@ func decUtfCase(r *gen.Rand, e *emitter) {
 		e.stat("s2u")
 		e.emit("decoders\ts2u\t"+hexBytes(b), guard(func() string { return hexU16(helpers.StringToUTF16(string(b))) }))
 	}
+}
+
+// decSeqLen: number of bytes the lead byte announces (1 for ASCII and for bytes that cannot start a sequence)
+func decSeqLen(s0 byte) int {
+	switch {
+	case s0&0xE0 == 0xC0:
+		return 2
+	case s0&0xF0 == 0xE0:
+		return 3
+	case s0&0xF8 == 0xF0:
+		return 4
+	}
+	return 1
+}
+
+// decEndsTruncated: the last 1..3 bytes are a lead byte followed only by continuation bytes, fewer than it announces
+func decEndsTruncated(b []byte) bool {
+	for k := 1; k <= 3 && k <= len(b); k++ {
+		lead := b[len(b)-k]
+		if lead&0xC0 == 0x80 {
+			continue // a continuation byte: look further back
+		}
+		return decSeqLen(lead) > k
+	}
+	return false
 }
 
 func listOrDash(xs []string) string {
